@@ -36,24 +36,24 @@ func paramRoot(p *ssa.Parameter) root {
 }
 
 func (a root) join(b root) root {
-	if a.kind == rShared {
-		return a
+	// the parameter set is carried in every kind: "may also hold storage of these parameters"
+	var m map[*ssa.Parameter]bool
+	if len(a.params)+len(b.params) > 0 {
+		m = map[*ssa.Parameter]bool{}
+		for p := range a.params {
+			m[p] = true
+		}
+		for p := range b.params {
+			m[p] = true
+		}
 	}
-	if b.kind == rShared {
-		return b
-	}
-	if a.kind == rFresh {
-		return b
-	}
-	if b.kind == rFresh {
-		return a
-	}
-	m := map[*ssa.Parameter]bool{}
-	for p := range a.params {
-		m[p] = true
-	}
-	for p := range b.params {
-		m[p] = true
+	switch {
+	case a.kind == rShared:
+		return root{kind: rShared, why: a.why, params: m}
+	case b.kind == rShared:
+		return root{kind: rShared, why: b.why, params: m}
+	case a.kind == rFresh && b.kind == rFresh:
+		return root{kind: rFresh}
 	}
 	return root{kind: rParam, params: m}
 }
@@ -348,10 +348,7 @@ func (f *Fresh) callRoot(call *ssa.Call, idx int, seen map[ssa.Value]bool) root 
 			return sharedRoot("result of " + nameOfCallee(call))
 		}
 		rr := rets[idx]
-		switch rr.kind {
-		case rShared:
-			return sharedRoot("result of " + ssaFuncName(callee) + ": " + rr.why)
-		case rParam:
+		if len(rr.params) > 0 {
 			args := cc.Args
 			if cc.IsInvoke() {
 				args = append([]ssa.Value{cc.Value}, args...)
@@ -361,6 +358,9 @@ func (f *Fresh) callRoot(call *ssa.Call, idx int, seen map[ssa.Value]bool) root 
 					r = r.join(f.rootOf(args[i], seen))
 				}
 			}
+		}
+		if rr.kind == rShared {
+			r = r.join(sharedRoot("result of " + ssaFuncName(callee) + ": " + rr.why))
 		}
 	}
 	return r
